@@ -138,4 +138,24 @@ func init() {
 		Assume:  []string{"cooperative scheduler: context switches at channel operations and selects only; the default branch of a non-blocking select and the arrival order of operations on the channels such selects mention are scheduling choices (sched.go); items are symbolic but the order property does not depend on their values"},
 		Outside: "more than 4 items in flight, buffers larger than 2, several producers or consumers; interleavings are enumerated exhaustively (structural forks), the solver only supplies item values",
 	})
+	reg(&propDef{
+		ID: "C16",
+		Runs: []hrun{
+			{Pkg: walletPkg, Fn: "ZzC16Birthday15", Tiers: "qt", Reach: []string{"c16-end", "inner-block"}, Bound: "locateBirthdayBlock over every chain of <=16 blocks with arbitrary monotone symbolic timestamps, symbolic best height and birthday"},
+			{Pkg: walletPkg, Fn: "ZzC16Birthday63", Tiers: "t", Reach: []string{"c16-end", "inner-block"}, Bound: "chains of <=64 blocks"},
+			{Pkg: walletPkg, Fn: "ZzC16HorizonW1", Tiers: "qt", NoNative: true, Reach: []string{"c16-end", "invalid-child"}, Bound: "recovery window 1, 3 rounds of expand + found, <=2 invalid children anywhere (symbolic), both branches"},
+			{Pkg: walletPkg, Fn: "ZzC16HorizonW2", Tiers: "qt", NoNative: true, Reach: []string{"c16-end", "invalid-child", "jump"}, Bound: "window 2, 2 rounds"},
+			{Pkg: walletPkg, Fn: "ZzC16HorizonW3", Tiers: "qt", NoNative: true, Reach: []string{"c16-end", "invalid-child", "jump"}, Bound: "window 3, 2 rounds"},
+			{Pkg: walletPkg, Fn: "ZzC16HorizonResume", Tiers: "qt", NoNative: true, Reach: []string{"c16-end"}, Bound: "window 2, resumed recovery starting at index 7"},
+			{Pkg: walletPkg, Fn: "ZzC16HorizonW3R3", Tiers: "t", NoNative: true, Reach: []string{"c16-end"}, Bound: "window 3, 3 rounds"},
+			{Pkg: walletPkg, Fn: "ZzC16HorizonW4", Tiers: "t", NoNative: true, Reach: []string{"c16-end"}, Bound: "window 4, 2 rounds, start index 7"},
+		},
+		Assume: []string{
+			"pieces 1 and 2 of the design only: locateBirthdayBlock, and BranchRecoveryState + expandScopeHorizons + extendFoundAddresses; the full recovery loop with the block filterer and balances (piece 3) is not covered",
+			"ScopedKeyManager.DeriveFromKeyPath/Extend*Addresses/MarkUsed are replaced by harness stubs (verifrt.StubFunc) whose derivation declares child indexes invalid by symbolic booleans; counterexamples of these harnesses are confirmed by deterministic re-execution in the executor, not natively",
+			"time.Time.Sub is replaced by its contract (saturating difference) because its body divides by 10^9",
+			"the stored birthday precedes the first possible payment by two days (wallet creation subtracts 48h), so a start block with timestamp <= birthday+2h is not later than the first block that could pay",
+		},
+		Outside: "chains longer than 64 blocks (bounded binary search, not the inductive loop-cut of the design), windows above 4, more than 2 invalid children, index wrap at 2^32, recovery of balances/transactions, interruption and Resurrect",
+	})
 }
